@@ -830,6 +830,13 @@ impl<'ast> Check<'ast> for &ResolvedField<'ast> {
             // optimized to a static merge that happens before runtime), so we type everything as
             // `Dyn`.
             (_, defs) => {
+                // The type of the field itself must be `Dyn` as well. Otherwise, it would remain
+                // unconstrained, and both the other fields of a recursive record and the users
+                // of the record could use this field at an arbitrary type.
+                ty.clone()
+                    .unify(mk_uniftype::dynamic(), state, &ctxt)
+                    .map_err(|err| err.into_typecheck_err(state, self.pos()))?;
+
                 for def in defs.iter() {
                     def.check(state, ctxt.clone(), visitor, mk_uniftype::dynamic())?;
                 }
